@@ -42,7 +42,7 @@ RULE = ("each run draws a server byte stream from a response grammar (every stat
         "class); non-trivial = the stream was corrupted, cut short or segmented")
 PROBES = ["unknown_charset", "nontext_codec", "over_cap", "stall_timeout", "rst_mid_body",
           "fin_without_close_notify", "invalid_header", "must_succeed_core", "tls_entry",
-          "titan_entry", "non2x_with_trailing_bytes", "connect_phase_fault"]
+          "titan_entry", "non2x_with_trailing_bytes", "connect_phase_fault", "trickling_server"]
 COMPONENTS = {
     "real": ["nauyaca.client.protocol (both protocol classes)", "nauyaca.client.session "
              "(get/upload, wait_for timeouts)", "asyncio transports + sslproto, OpenSSL"],
@@ -148,6 +148,8 @@ def gen_stream(ch, cap):
 
 def expectation(info, end, prefix_len, cap):
     """What the property demands of a call given the bytes actually sent."""
+    if end == "trickle":
+        end = "stall"      # a server that never finishes, whether silent or dribbling
     sent = info["stream"][:prefix_len]
     i = sent.find(b"\r\n")
     exp = {"verdict": "either", "prompt": end != "stall", "timeout": False, "body": None,
@@ -244,7 +246,15 @@ def run_case(ch, cfg, variant):
     def mark(p):
         marks["t_end"] = net.now
     script.append(("call", mark))
-    script.append({"close": ("close",), "fin": ("fin",), "rst": ("rst",), "stall": ("stall",)}[cfg["end"]])
+    if cfg["end"] == "trickle":
+        # never finishes, but keeps sending one byte at intervals shorter than the timeout
+        gap = cfg["timeout"] / 4.0
+        for _ in range(16):
+            script += [("sleep", gap), ("send", b"x")]
+        script.append(("stall",))
+    else:
+        script.append({"close": ("close",), "fin": ("fin",), "rst": ("rst",),
+                       "stall": ("stall",)}[cfg["end"]])
     tls = cfg["entry"] in ("get", "upload")
     srv = ScriptedServer(sim, HOST, 1965, "rsa1", lambda i, s: {"script": script}, tls=tls)
     if variant:
@@ -383,7 +393,7 @@ def run_one(ch):
     cap = ch.pick("cap", [1 << 20, 4096, 65536, 16384])
     info = gen_stream(ch, cap)
     n = len(info["stream"])
-    end = ch.pick("end", ["close", "fin", "rst", "stall"], [6, 2, 2, 3])
+    end = ch.pick("end", ["close", "fin", "rst", "stall", "trickle"], [6, 2, 2, 3, 2])
     prefix = n
     if ch.chance("cutshort", 0.35):
         prefix = ch.choose("prefix", n + 1)
@@ -433,10 +443,11 @@ def run_one(ch):
                             f"{limit - 1.0:.3f} but the call only ended at {t_done:.3f} "
                             f"(result {r[:2]})", loop_exceptions=o["exc"], **ctx)
         else:
-            limit = o["t0"] + 2 * T + 1.0
+            limit = (o["t_connected"] if o["t_connected"] is not None else o["t0"]) + T + 1.0
             if t_done > limit:
-                res.violate(f"C13/timeout-not-enforced/{entry}",
-                            f"{name}: call ended at {t_done:.3f}, later than two timeouts", **ctx)
+                res.violate(f"C13/timeout-not-enforced/{end}/{entry}",
+                            f"{name}: call ended at {t_done:.3f}; the response wait started at "
+                            f"{limit - T - 1.0:.3f} and the timeout is {T} s", **ctx)
         # result class
         if r[0] == "exc":
             if not r[3]:
@@ -448,7 +459,7 @@ def run_one(ch):
                             **ctx)
             if exp["timeout"] and r[1] != "TimeoutError" and exp["verdict"] == "error":
                 # a stalled server must end in a timeout error (other errors only if decidable)
-                if info["cls"] in ("good", "no-crlf") and end == "stall":
+                if info["cls"] in ("good", "no-crlf") and end in ("stall", "trickle"):
                     res.violate(f"C13/stall-not-timeout-error/{entry}",
                                 f"{name}: stalled server ended in {r[1]} instead of TimeoutError",
                                 **ctx)
@@ -495,6 +506,8 @@ def run_one(ch):
         res.stats["over_cap"] += 1
     if end == "stall":
         res.stats["stall_timeout"] += 1
+    if end == "trickle":
+        res.stats["trickling_server"] += 1
     if end == "rst" and prefix > len(info["head"]):
         res.stats["rst_mid_body"] += 1
     if end == "fin" and entry in ("get", "upload"):
